@@ -39,7 +39,9 @@ static void vf_http_tables_init(void) { }
 
 void harness(void) {
 	VF_NONDET(size_t, hdr_size);
+	VF_HTTP_BOUND(hdr_size);
 	VF_FRESH_PTR(uint8_t, http_hdr, hdr_size);
+	VF_HTTP_EMPTY_SPAN(http_hdr, hdr_size);
 	vf_http_tables_init();
 #if defined(VF_FN_http_parse_req_line)
 #ifdef VF_REPLAY
